@@ -559,21 +559,19 @@ Proof.
   destruct s as [|c r]; lex_simpl.
   - cbn [str_go str_end_errs obs_of_gen zs map]. rewrite map_app, app_nil_r. reflexivity.
   - cbn [str_go str_act]. unfold normal_act.
-    destruct (N.eqb_spec c 10) as [->|H10].
-    { cbn [obs_of_gen zs map]. rewrite map_app, app_nil_r. reflexivity. }
-    destruct (N.eqb_spec c 34) as [->|H34].
-    { cbn [obs_of_gen zs map app]. rewrite app_nil_r. reflexivity. }
-    destruct (N.eqb_spec c 92) as [->|H92].
-    { rewrite str_go_esc.
-      pose proof (gen_lexEscape_run r (buf ++ [Z.of_N 92]) errs) as HE.
-      pose proof (esc_run_len 34 r) as HL.
-      destruct (esc_run 34 r) as [[p s'] e].
-      destruct HE as (b & EE & E1 & E2). rewrite E1. cbn [go_bind].
-      rewrite IH by (cbn [length] in Hf; lia).
-      destruct (str_go 34 SNormal s') as [[l rest] e2].
-      rewrite <- !app_assoc, map_app, E2, <- app_assoc. unfold zs. rewrite map_cons, map_app. reflexivity. }
-    rewrite IH by (cbn [length] in Hf; lia).
-    destruct (str_go 34 SNormal r) as [[l rest] e2]. rewrite <- app_assoc. reflexivity.
+    pose proof (str_go_esc 34 r) as HS.
+    pose proof (gen_lexEscape_run r (buf ++ [Z.of_N c]) errs) as HE.
+    pose proof (esc_run_len 34 r) as HL.
+    destruct (esc_run 34 r) as [[p s'] e].
+    destruct HE as (b & EE & E1 & E2).
+    pose proof (IH s' (wrap_i64 (n + 1)) t ((buf ++ [Z.of_N c]) ++ zs p) (errs ++ EE) ltac:(cbn [length] in Hf; lia)) as IH1.
+    pose proof (IH r (wrap_i64 (n + 1)) t (buf ++ [Z.of_N c]) errs ltac:(cbn [length] in Hf; lia)) as IH2.
+    destruct (c =? 10)%N eqn:E10, (c =? 34)%N eqn:E34, (c =? 92)%N eqn:E92; cbn beta iota zeta;
+      go_arith; try (exfalso; lia);
+      rewrite ?E1; cbn [go_bind]; rewrite ?IH1, ?IH2, ?HS;
+      destruct_lets; cbn [obs_of_gen]; subst;
+      rewrite <- ?app_assoc, ?map_app, ?app_nil_r; unfold zs; rewrite ?map_cons, ?map_app; cbn [app map];
+      rewrite <- ?app_assoc; reflexivity.
 Qed.
 
 Lemma gen_LexString_is_model : forall (s : list N) (t : Z),
